@@ -293,5 +293,8 @@ def run(ctx):
     r10_2(ctx)
     r3_4(ctx)
     # an absent resource must not be newly paired with a task: allocation sites require state FREE (C04)
-    from .C04 import r4_1
+    from .C04 import r4_1, r4_2
     r4_1(ctx)
+    # "worker skill times paired facility skill": a facility's contribution is divided by the number of tasks it serves, so the
+    # product is the task's only while a facility serves one task -- the busy / solo cells of the can_add_resources table (C04)
+    r4_2(ctx)
